@@ -1319,12 +1319,10 @@ impl<'ast, 'res> Resolver<'ast, 'res> {
                             Some(ValueType::String)
                         }
                         (ValueType::Number, ValueType::Number) => Some(ValueType::Number),
+                        // A number or a string, depending on what the operand turns out
+                        // to be at run time.
                         (ValueType::Dynamic, ..) | (.., ValueType::Dynamic) => {
-                            if l == ValueType::Number || r == ValueType::Number {
-                                Some(ValueType::Number)
-                            } else {
-                                Some(ValueType::String)
-                            }
+                            Some(ValueType::Dynamic)
                         }
                         _ => None,
                     },
@@ -1355,15 +1353,17 @@ impl<'ast, 'res> Resolver<'ast, 'res> {
             Expr::Unary { op, expr, .. } => {
                 let t = self.infer_expr_type(expr)?;
                 match op {
+                    // An operand typed only at run time is accepted (see `check_expr`), so
+                    // the expression has the operator's result type.
                     UnaryOp::Not => {
-                        if t == ValueType::Bool || t == ValueType::Null {
+                        if matches!(t, ValueType::Bool | ValueType::Null | ValueType::Dynamic) {
                             Some(ValueType::Bool)
                         } else {
                             None
                         }
                     }
                     UnaryOp::Minus => {
-                        if t == ValueType::Number {
+                        if matches!(t, ValueType::Number | ValueType::Dynamic) {
                             Some(ValueType::Number)
                         } else {
                             None
